@@ -12,8 +12,8 @@
   * "exactly one x- and one y-equation per junction": no junction is listed twice; the `ignore_four` option only
     removes equations.
 
-  Vocabulary (Proofs/C02more.lean): `shiftP t p` translation, `scaleP k p` scaling, `rotP a b` / `rotV a b` rotation
-  with cosine `a` and sine `b`, `flipP` / `flipV` mirror image in the x-axis.
+  Vocabulary (Proofs/C02more.lean): `c02_shiftP t p` translation, `c02_scaleP k p` scaling, `c02_rotP a b` / `c02_rotV a b` rotation
+  with cosine `a` and sine `b`, `c02_flipP` / `c02_flipV` mirror image in the x-axis.
 -/
 import ForsysModel.Props.C02
 import ForsysModel.Props.C02matrix
@@ -27,19 +27,19 @@ open FMInput
 /-! ### translation, scaling, re-sampling of the chord -/
 
 /-- the coded tangent does not depend on where the tissue sits in the plane -/
-theorem tangentVec_translate (p c : Pt) (t ch : Vec) :
-    tangentVec (shiftP t p) (shiftP t c) ch = tangentVec p c ch := by
+theorem c02_tangentVec_translate (p c : Pt) (t ch : Vec) :
+    tangentVec (c02_shiftP t p) (c02_shiftP t c) ch = tangentVec p c ch := by
   rw [tangentVec_eq, tangentVec_eq]
-  have h1 : (shiftP t p).y - (shiftP t c).y = p.y - c.y := by simp only [shiftP]; ring
-  have h2 : (shiftP t p).x - (shiftP t c).x = p.x - c.x := by simp only [shiftP]; ring
+  have h1 : (c02_shiftP t p).y - (c02_shiftP t c).y = p.y - c.y := by simp only [c02_shiftP]; ring
+  have h2 : (c02_shiftP t p).x - (c02_shiftP t c).x = p.x - c.x := by simp only [c02_shiftP]; ring
   rw [h1, h2]
 
 /-- … nor does the reference tangent -/
-theorem tangentVecDot_translate (p c : Pt) (t ch : Vec) :
-    tangentVecDot (shiftP t p) (shiftP t c) ch = tangentVecDot p c ch := by
+theorem c02_tangentVecDot_translate (p c : Pt) (t ch : Vec) :
+    tangentVecDot (c02_shiftP t p) (c02_shiftP t c) ch = tangentVecDot p c ch := by
   unfold tangentVecDot
-  have h1 : (shiftP t p).y - (shiftP t c).y = p.y - c.y := by simp only [shiftP]; ring
-  have h2 : (shiftP t p).x - (shiftP t c).x = p.x - c.x := by simp only [shiftP]; ring
+  have h1 : (c02_shiftP t p).y - (c02_shiftP t c).y = p.y - c.y := by simp only [c02_shiftP]; ring
+  have h2 : (c02_shiftP t p).x - (c02_shiftP t c).x = p.x - c.x := by simp only [c02_shiftP]; ring
   simp only [h1, h2]
 
 /-- the coded tangent uses the chord only through the forced signs of its two components … -/
@@ -65,21 +65,21 @@ theorem tangentVecDot_chord_scale (p c : Pt) (ch : Vec) (k : Rat) (hk : 0 < k) :
   · rw [if_neg h, if_neg (not_lt.mpr (mul_nonneg hk.le (not_lt.mp h)))]
 
 /-- magnifying the tissue by `k > 0` magnifies the (un-normalised) tangent by `k`: the unit tangent is unchanged -/
-theorem tangentVec_scale (p c : Pt) (ch : Vec) (k : Rat) (hk : 0 < k) :
-    tangentVec (scaleP k p) (scaleP k c) (Vec.smul k ch) = Vec.smul k (tangentVec p c ch) := by
+theorem c02_tangentVec_scale (p c : Pt) (ch : Vec) (k : Rat) (hk : 0 < k) :
+    tangentVec (c02_scaleP k p) (c02_scaleP k c) (Vec.smul k ch) = Vec.smul k (tangentVec p c ch) := by
   rw [tangentVec_chord_scale _ _ _ _ hk, tangentVec_abs', tangentVec_abs']
-  have h1 : (scaleP k p).y - (scaleP k c).y = k * (p.y - c.y) := by simp only [scaleP]; ring
-  have h2 : (scaleP k p).x - (scaleP k c).x = k * (p.x - c.x) := by simp only [scaleP]; ring
+  have h1 : (c02_scaleP k p).y - (c02_scaleP k c).y = k * (p.y - c.y) := by simp only [c02_scaleP]; ring
+  have h2 : (c02_scaleP k p).x - (c02_scaleP k c).x = k * (p.x - c.x) := by simp only [c02_scaleP]; ring
   rw [h1, h2, ratAbs_pos_mul _ _ hk, ratAbs_pos_mul _ _ hk]
   apply Vec.ext' <;> simp only [Vec.smul] <;> ring
 
-theorem tangentVecDot_scale (p c : Pt) (ch : Vec) (k : Rat) (hk : 0 < k) :
-    tangentVecDot (scaleP k p) (scaleP k c) (Vec.smul k ch) = Vec.smul k (tangentVecDot p c ch) := by
+theorem c02_tangentVecDot_scale (p c : Pt) (ch : Vec) (k : Rat) (hk : 0 < k) :
+    tangentVecDot (c02_scaleP k p) (c02_scaleP k c) (Vec.smul k ch) = Vec.smul k (tangentVecDot p c ch) := by
   rw [tangentVecDot_chord_scale _ _ _ _ hk]
   unfold tangentVecDot
   simp only []
-  have h1 : (scaleP k p).y - (scaleP k c).y = k * (p.y - c.y) := by simp only [scaleP]; ring
-  have h2 : (scaleP k p).x - (scaleP k c).x = k * (p.x - c.x) := by simp only [scaleP]; ring
+  have h1 : (c02_scaleP k p).y - (c02_scaleP k c).y = k * (p.y - c.y) := by simp only [c02_scaleP]; ring
+  have h2 : (c02_scaleP k p).x - (c02_scaleP k c).x = k * (p.x - c.x) := by simp only [c02_scaleP]; ring
   rw [h1, h2]
   have hd : Vec.dot ⟨-(k * (p.y - c.y)), k * (p.x - c.x)⟩ ch = k * Vec.dot ⟨-(p.y - c.y), p.x - c.x⟩ ch := by
     simp only [Vec.dot]; ring
@@ -93,65 +93,65 @@ theorem tangentVecDot_scale (p c : Pt) (ch : Vec) (k : Rat) (hk : 0 < k) :
 /-! ### rotation and reflection -/
 
 /-- the reference tangent turns with the tissue, for every rotation (cosine `a`, sine `b`) -/
-theorem tangentVecDot_rotate (p c : Pt) (ch : Vec) (a b : Rat) (hab : a * a + b * b = 1) :
-    tangentVecDot (rotP a b p) (rotP a b c) (rotV a b ch) = rotV a b (tangentVecDot p c ch) := by
+theorem c02_tangentVecDot_rotate (p c : Pt) (ch : Vec) (a b : Rat) (hab : a * a + b * b = 1) :
+    tangentVecDot (c02_rotP a b p) (c02_rotP a b c) (c02_rotV a b ch) = c02_rotV a b (tangentVecDot p c ch) := by
   unfold tangentVecDot
   simp only []
-  have hd : Vec.dot ⟨-((rotP a b p).y - (rotP a b c).y), (rotP a b p).x - (rotP a b c).x⟩ (rotV a b ch)
+  have hd : Vec.dot ⟨-((c02_rotP a b p).y - (c02_rotP a b c).y), (c02_rotP a b p).x - (c02_rotP a b c).x⟩ (c02_rotV a b ch)
       = Vec.dot ⟨-(p.y - c.y), p.x - c.x⟩ ch := by
-    simp only [Vec.dot, rotP, rotV]
+    simp only [Vec.dot, c02_rotP, c02_rotV]
     have : ∀ u v w z : Rat, -(b * u + a * v - (b * w + a * z)) * (a * ch.x - b * ch.y) +
         (a * u - b * v - (a * w - b * z)) * (b * ch.x + a * ch.y)
         = (a * a + b * b) * (-(v - z) * ch.x + (u - w) * ch.y) := by intros; ring
     rw [this, hab, one_mul]
   rw [hd]
   split
-  · apply Vec.ext' <;> simp only [Vec.neg, rotP, rotV] <;> ring
-  · apply Vec.ext' <;> simp only [rotP, rotV] <;> ring
+  · apply Vec.ext' <;> simp only [Vec.neg, c02_rotP, c02_rotV] <;> ring
+  · apply Vec.ext' <;> simp only [c02_rotP, c02_rotV] <;> ring
 
 /-- the coded rule does not turn with the tissue — already a quarter turn of a junction whose first chord is
     horizontal goes wrong (`0 ↦ +1` in `get_versor_sign`): `p = (4,3)` on the circle about the origin, chord `(1,0)`;
     the full statement `tangentVec (rot p) (rot c) (rot ch) = rot (tangentVec p c ch)` is false -/
 theorem tangentVec_quarter_turn_witness :
     tangentVec ⟨4, 3⟩ ⟨0, 0⟩ ⟨1, 0⟩ = ⟨3, 4⟩ ∧
-    tangentVec (rotP 0 1 ⟨4, 3⟩) (rotP 0 1 ⟨0, 0⟩) (rotV 0 1 ⟨1, 0⟩) = ⟨4, 3⟩ ∧
-    rotV 0 1 ⟨3, 4⟩ = ⟨-4, 3⟩ := by
+    tangentVec (c02_rotP 0 1 ⟨4, 3⟩) (c02_rotP 0 1 ⟨0, 0⟩) (c02_rotV 0 1 ⟨1, 0⟩) = ⟨4, 3⟩ ∧
+    c02_rotV 0 1 ⟨3, 4⟩ = ⟨-4, 3⟩ := by
   decide +kernel
 
 /-- … it does for a quarter turn when the chord's y-component does not vanish -/
 theorem tangentVec_quarter_turn_partial (p c : Pt) (ch : Vec) (hy : ch.y ≠ 0) :
-    tangentVec (rotP 0 1 p) (rotP 0 1 c) (rotV 0 1 ch) = rotV 0 1 (tangentVec p c ch) := by
+    tangentVec (c02_rotP 0 1 p) (c02_rotP 0 1 c) (c02_rotV 0 1 ch) = c02_rotV 0 1 (tangentVec p c ch) := by
   rw [tangentVec_abs', tangentVec_abs']
-  have h1 : (rotP 0 1 p).y - (rotP 0 1 c).y = p.x - c.x := by simp only [rotP]; ring
-  have h2 : (rotP 0 1 p).x - (rotP 0 1 c).x = -(p.y - c.y) := by simp only [rotP]; ring
-  have h3 : (rotV 0 1 ch).x = -ch.y := by simp only [rotV]; ring
-  have h4 : (rotV 0 1 ch).y = ch.x := by simp only [rotV]; ring
+  have h1 : (c02_rotP 0 1 p).y - (c02_rotP 0 1 c).y = p.x - c.x := by simp only [c02_rotP]; ring
+  have h2 : (c02_rotP 0 1 p).x - (c02_rotP 0 1 c).x = -(p.y - c.y) := by simp only [c02_rotP]; ring
+  have h3 : (c02_rotV 0 1 ch).x = -ch.y := by simp only [c02_rotV]; ring
+  have h4 : (c02_rotV 0 1 ch).y = ch.x := by simp only [c02_rotV]; ring
   rw [h1, h2, h3, h4, ratAbs_neg', forcedSign_neg _ hy]
-  apply Vec.ext' <;> simp only [rotV, Int.cast_neg] <;> ring
+  apply Vec.ext' <;> simp only [c02_rotV, Int.cast_neg] <;> ring
 
 /-- mirror image: the reference tangent is mirrored too, provided the chord is not radial (not perpendicular to the
     tangent line); for a radial chord the tie `dot = 0` is broken the same way on both sides and the results differ
     (witness below) -/
 theorem tangentVecDot_reflect_partial (p c : Pt) (ch : Vec)
     (h : Vec.dot (Vec.perp (Vec.sub p c)) ch ≠ 0) :
-    tangentVecDot (flipP p) (flipP c) (flipV ch) = flipV (tangentVecDot p c ch) := by
+    tangentVecDot (c02_flipP p) (c02_flipP c) (c02_flipV ch) = c02_flipV (tangentVecDot p c ch) := by
   unfold tangentVecDot
   simp only []
-  have hd : Vec.dot ⟨-((flipP p).y - (flipP c).y), (flipP p).x - (flipP c).x⟩ (flipV ch)
+  have hd : Vec.dot ⟨-((c02_flipP p).y - (c02_flipP c).y), (c02_flipP p).x - (c02_flipP c).x⟩ (c02_flipV ch)
       = - Vec.dot ⟨-(p.y - c.y), p.x - c.x⟩ ch := by
-    simp only [Vec.dot, flipP, flipV]; ring
+    simp only [Vec.dot, c02_flipP, c02_flipV]; ring
   have h' : Vec.dot ⟨-(p.y - c.y), p.x - c.x⟩ ch ≠ 0 := h
   rw [hd]
   rcases lt_or_gt_of_ne h' with hlt | hgt
   · rw [if_pos hlt, if_neg (by linarith)]
-    apply Vec.ext' <;> simp only [Vec.neg, flipP, flipV] <;> ring
+    apply Vec.ext' <;> simp only [Vec.neg, c02_flipP, c02_flipV] <;> ring
   · rw [if_neg (not_lt.mpr hgt.le), if_pos (by linarith)]
-    apply Vec.ext' <;> simp only [Vec.neg, flipP, flipV] <;> ring
+    apply Vec.ext' <;> simp only [Vec.neg, c02_flipP, c02_flipV] <;> ring
 
 theorem tangentVecDot_reflect_witness :
     Vec.dot (Vec.perp (Vec.sub ⟨4, 3⟩ ⟨0, 0⟩)) ⟨4, 3⟩ = 0 ∧
-    tangentVecDot (flipP ⟨4, 3⟩) (flipP ⟨0, 0⟩) (flipV ⟨4, 3⟩) = ⟨3, 4⟩ ∧
-    flipV (tangentVecDot ⟨4, 3⟩ ⟨0, 0⟩ ⟨4, 3⟩) = ⟨-3, -4⟩ := by
+    tangentVecDot (c02_flipP ⟨4, 3⟩) (c02_flipP ⟨0, 0⟩) (c02_flipV ⟨4, 3⟩) = ⟨3, 4⟩ ∧
+    c02_flipV (tangentVecDot ⟨4, 3⟩ ⟨0, 0⟩ ⟨4, 3⟩) = ⟨-3, -4⟩ := by
   decide +kernel
 
 /-- the tangent at the other end of the chord direction: reversing the chord reverses the coded tangent when no
@@ -388,19 +388,19 @@ theorem vectorFromVertex_two_points_opposite (a b : Id) (pa pb c : Pt) (hab : a 
 
 /-! non-vacuity -/
 
-/-- `tangentVecDot_rotate`: a rational rotation that is not a quarter turn (3-4-5), on a non-degenerate arc point -/
+/-- `c02_tangentVecDot_rotate`: a rational rotation that is not a quarter turn (3-4-5), on a non-degenerate arc point -/
 example : (3/5 : Rat) * (3/5) + (4/5) * (4/5) = 1 ∧
-    tangentVecDot (rotP (3/5) (4/5) ⟨4, 3⟩) (rotP (3/5) (4/5) ⟨0, 0⟩) (rotV (3/5) (4/5) ⟨-1, 1⟩) = ⟨-5, 0⟩ := by
+    tangentVecDot (c02_rotP (3/5) (4/5) ⟨4, 3⟩) (c02_rotP (3/5) (4/5) ⟨0, 0⟩) (c02_rotV (3/5) (4/5) ⟨-1, 1⟩) = ⟨-5, 0⟩ := by
   decide +kernel
-/-- `tangentVec_chord_scale` / `tangentVec_scale` / `…Dot_scale` -/
-example : (0 : Rat) < 3 ∧ tangentVec (scaleP 3 ⟨4, 3⟩) (scaleP 3 ⟨0, 0⟩) (Vec.smul 3 ⟨-1, 1⟩) = ⟨-9, 12⟩ := by
+/-- `tangentVec_chord_scale` / `c02_tangentVec_scale` / `…Dot_scale` -/
+example : (0 : Rat) < 3 ∧ tangentVec (c02_scaleP 3 ⟨4, 3⟩) (c02_scaleP 3 ⟨0, 0⟩) (Vec.smul 3 ⟨-1, 1⟩) = ⟨-9, 12⟩ := by
   decide +kernel
 /-- `tangentVec_chord_signs` with two different chords -/
 example : forcedSign (⟨-1, 1⟩ : Vec).x = forcedSign (⟨-7, 0⟩ : Vec).x ∧
     forcedSign (⟨-1, 1⟩ : Vec).y = forcedSign (⟨-7, 0⟩ : Vec).y := by decide +kernel
 /-- `tangentVec_quarter_turn_partial`, `tangentVec_chord_neg_partial` -/
 example : (⟨-1, 1⟩ : Vec).x ≠ 0 ∧ (⟨-1, 1⟩ : Vec).y ≠ 0 ∧
-    tangentVec (rotP 0 1 ⟨4, 3⟩) (rotP 0 1 ⟨0, 0⟩) (rotV 0 1 ⟨-1, 1⟩) = ⟨-4, -3⟩ := by decide +kernel
+    tangentVec (c02_rotP 0 1 ⟨4, 3⟩) (c02_rotP 0 1 ⟨0, 0⟩) (c02_rotV 0 1 ⟨-1, 1⟩) = ⟨-4, -3⟩ := by decide +kernel
 /-- `tangentVecDot_reflect_partial`, `tangentVecDot_chord_neg_partial` -/
 example : Vec.dot (Vec.perp (Vec.sub ⟨4, 3⟩ ⟨0, 0⟩)) ⟨-1, 1⟩ ≠ 0 := by decide +kernel
 /-- `tangentVec_eq_dot_iff`: both sides true at `(4,3)`, both false at the D2 point -/
